@@ -102,46 +102,41 @@ func runTsp(w *tr.W, p tspPlan) (writes int) {
 	return pw.calls
 }
 
-func driveC20(c *Ctx) {
-	set := tr.NewSet(c.Out, "trace", c.Shards)
-	meta := map[string]interface{}{}
-	finish := func() {
-		meta["segments"] = set.Segs
-		meta["events"] = set.Close()
-		tr.WriteJSON(c.Out+"/meta.json", meta)
-	}
-	if c.In != "" {
-		for _, raw := range readInputs(c.In) {
-			var p tspPlan
-			if err := json.Unmarshal(raw, &p); err != nil {
-				panic(err)
-			}
-			runTsp(set.Begin(p.key(), tr.E{"input": p}), p)
+// tspEntry is one call of the driver's run, in order. Calls in one process share whatever package-level state tsp.LIB keeps, so a
+// candidate finding is re-executed after the same preceding calls (Idx = position in the run; the replay regenerates the list).
+type tspEntry struct {
+	P      tspPlan
+	Traced bool
+}
+
+func tspRun(c *Ctx, upto int, each func(i int, e tspEntry) int) (plans, weightSection int, wcount map[string]int) {
+	wcount = map[string]int{}
+	i := 0
+	do := func(p tspPlan, traced bool) int {
+		defer func() { i++ }()
+		if upto >= 0 && i > upto {
+			return 0
 		}
-		finish()
-		return
+		return each(i, tspEntry{p, traced})
 	}
 	maxN := 6
 	if c.Thorough() {
 		maxN = 9
 	}
-	plans, weightSection := 0, 0
-	wcount := map[string]int{}
 	for n := 0; n <= maxN; n++ {
 		for _, wn := range tspWeightNames {
 			if n > 6 && wn != "sum" && wn != "huge" {
 				continue
 			}
 			base := tspPlan{N: n, W: wn, At: 0, Kind: "fail"}
-			W := runTsp(nil, base)
+			W := do(base, false)
 			wcount[fmt.Sprintf("n=%d,w=%s", n, wn)] = W
-			runTsp(set.Begin(base.key(), tr.E{"input": base}), base)
+			do(base, true)
 			plans++
 			for at := 1; at <= W+1; at++ {
 				for _, kind := range []string{"fail", "short"} {
 					for _, perm := range []bool{false, true} {
-						p := tspPlan{N: n, W: wn, At: at, Kind: kind, Perm: perm}
-						runTsp(set.Begin(p.key(), tr.E{"input": p}), p)
+						do(tspPlan{N: n, W: wn, At: at, Kind: kind, Perm: perm}, true)
 						plans++
 						if at > 3 && at <= W-1 {
 							weightSection++
@@ -149,6 +144,9 @@ func driveC20(c *Ctx) {
 					}
 				}
 			}
+			// a fault-free call straight after failed calls: its output must not depend on them
+			do(base, true)
+			plans++
 		}
 	}
 	// larger instances: fault-free output and a few fault positions (size-dependent behaviour of the writer path)
@@ -159,17 +157,62 @@ func driveC20(c *Ctx) {
 	for k, n := range big {
 		wn := []string{"sum", "huge", "neg"}[k%3]
 		base := tspPlan{N: n, W: wn, At: 0, Kind: "fail"}
-		W := runTsp(nil, base)
+		W := do(base, false)
 		wcount[fmt.Sprintf("n=%d,w=%s", n, wn)] = W
-		runTsp(set.Begin(base.key(), tr.E{"input": base}), base)
+		do(base, true)
 		plans++
 		for _, at := range []int{4, W / 2, W - 1, W, W + 1} {
-			p := tspPlan{N: n, W: wn, At: at, Kind: []string{"fail", "short"}[at%2], Perm: false}
-			runTsp(set.Begin(p.key(), tr.E{"input": p}), p)
+			do(tspPlan{N: n, W: wn, At: at, Kind: []string{"fail", "short"}[at%2], Perm: false}, true)
 			plans++
 			weightSection++
 		}
+		do(base, true)
+		plans++
 	}
+	return
+}
+
+type tspIn struct {
+	tspPlan
+	Idx int `json:"idx"` // position of the call in the driver's run (replay: the calls before it are made first)
+}
+
+func driveC20(c *Ctx) {
+	set := tr.NewSet(c.Out, "trace", c.Shards)
+	meta := map[string]interface{}{}
+	finish := func() {
+		meta["segments"] = set.Segs
+		meta["events"] = set.Close()
+		tr.WriteJSON(c.Out+"/meta.json", meta)
+	}
+	if c.In != "" {
+		// one pass over the same run of calls; only the candidates are traced, every other call is made silently in its place
+		want, last := map[int]bool{}, -1
+		for _, raw := range readInputs(c.In) {
+			var in tspIn
+			if err := json.Unmarshal(raw, &in); err != nil {
+				panic(err)
+			}
+			want[in.Idx] = true
+			if in.Idx > last {
+				last = in.Idx
+			}
+		}
+		tspRun(c, last, func(i int, e tspEntry) int {
+			if !want[i] {
+				return runTsp(nil, e.P)
+			}
+			return runTsp(set.Begin(fmt.Sprintf("%s#%d", e.P.key(), i), tr.E{"input": tspIn{e.P, i}}), e.P)
+		})
+		finish()
+		return
+	}
+	plans, weightSection, wcount := tspRun(c, -1, func(i int, e tspEntry) int {
+		if !e.Traced {
+			return runTsp(nil, e.P)
+		}
+		return runTsp(set.Begin(fmt.Sprintf("%s#%d", e.P.key(), i), tr.E{"input": tspIn{e.P, i}}), e.P)
+	})
 	meta["plans"] = plans
 	meta["plans_with_fault_in_weight_section"] = weightSection
 	meta["writes_per_config"] = wcount
